@@ -88,7 +88,8 @@ CLAIMS = {
              'piece_of_bytes / piece_of_str / ustr_spec. Correspondence: results of 22 insertion forms x texts x {utf-8, '
              'latin-1} with the value given as bytes and as text; oracle: render(bytes) == render(text) and text result, also '
              'for cp1252 and utf-16 templates; str() table of 35 values (exceptions with 0/1/n and falsy args, objects with '
-             '__str__) through 6 forms; misbehaving __str__ raises',
+             '__str__) through 6 forms; class objects; misbehaving __str__ raises; several template objects per process (same '
+             'source under pairs of encodings, histories) and families of values that are == but print differently',
         note='Trusted: Lean kernel; interpreter model validated (not verified) against the real classes; codecs other than '
              'UTF-8 / Latin-1 and Python str()/repr() of containers are oracle-only. Partial: the full Var.render path decodes '
              'bytes as Latin-1 (known finding C19-bytes-fullpath, same defect as C03-bytes-fullpath)',
@@ -103,12 +104,18 @@ CLAIMS = {
              'even, odd, start, end, length, item), seqvar_roman + roman_denotes / roman_value (fromRoman(toRoman n) = n for all '
              'n < 5000, decided by kernel evaluation over the whole range), item_and_key, lookup_sequence_name, '
              'lookup_sequence_var / sequence_var_attr / sequence_var_key, first_last_spec / lookup_first / lookup_last, '
-             'prefix_alias, else_iff_empty, item_pushed, in_scope_ends (C08). Correspondence: unbatched loops over lists/tuples '
+             'prefix_alias, else_iff_empty, item_pushed, in_scope_ends (C08); for the batched renderer inside the interpreter '
+             '(inBatch / inLoopB = renderwb): Batched.inLoopB_rule, once_per_window_element, window_flags, start_cleared, '
+             'window_is_batch_window / batched_count (the rendered window is C11\'s Batch.window: end - start + 1 elements), '
+             'prev_vars / next_vars / vars_are_links (previous-/next-sequence variables = C11 links), get_set_same / '
+             'get_set_alias (batch variables under their name and the prefix= alias), inx_scope_ends, two batched renderings '
+             'evaluated in the kernel. Correspondence: unbatched loops over lists/tuples '
              'of objects, mappings, 2-tuples, strings, numbers printing every variable, and nested loops with different '
              'prefixes; oracle: documented values computed from element positions, also for iterators / generators / lazy '
              'sequences and sort / reverse / batch combinations',
-        note='Trusted: Lean kernel; interpreter model validated (not verified) against the real classes. Partial: theorems cover '
-             'the unbatched renderer; batched windows are C11; sort/reverse/batch combinations and lazy inputs are oracle-only; '
+        note='Trusted: Lean kernel; interpreter model validated (not verified) against the real classes (incl. an interpreter '
+             'slice of random programs with sorted / reversed / batched loops under fault plans). Partial: batch parameters by '
+             'variable name, sort_expr / reverse_expr, multi-key sorts, lazy inputs, next-/previous-batches are oracle-only; '
              'roman numerals modelled for positions < 5000',
         technique='Lean 4 proof (induction on the loop, case analysis of the variable lookup, kernel evaluation over the full '
                   'finite numeral range) + model/implementation correspondence + independent value oracle',
@@ -216,7 +223,8 @@ CLAIMS = {
              'expressions, every block tag, sub-template calls, dtml-return, exceptions, fault plans as part of the '
              'environment), proved by mutual induction on the evaluation for ALL programs, namespaces and fault plans: '
              'block_preserves_stack, render_preserves_stack, subtemplate_preserves_stack, lookup_preserves_stack, '
-             'toplevel_call_balanced, caller_continues. Correspondence: results, call traces and every namespace snapshot '
+             'toplevel_call_balanced, caller_continues — the induction covers dtml-in with sort / reverse / batch options '
+             '(inBatch_step, inLoopB_step, arrange_pres). Correspondence: results, call traces and every namespace snapshot '
              'of generated programs under fault injection at every invocation point (singly and in pairs); oracle: frame '
              'identities and level after == before on the real TemplateDict',
         note='Trusted: Lean kernel; hand-written interpreter model validated (not verified) against the real classes by '
@@ -269,7 +277,9 @@ CLAIMS = {
              'direction, None smallest, lexicographic over any number of fields, stable merge sort, reverse): '
              'cmpKeys_transCmp / le_trans / le_total (the comparison is a total preorder for EVERY field list), '
              'sort_perm, sort_ordered, sort_stable, sort_keeps_sorted_sublists, sort_sorted_id, none_first, '
-             'desc_inverts, nocase_compares_lowered, key_extraction, reverse_exact, no_sort_identity, display_perm; '
+             'desc_inverts, nocase_compares_lowered, key_extraction, reverse_exact, no_sort_identity, display_perm; inside the '
+             'interpreter model (Render.arrange = what a dtml-in sort=key [reverse] iterates over): Interp.arrange_perm, '
+             'arrange_ordered, none_keys_first, arrange_stable (elements with keys), arrange_reverse, skey_total / skey_trans; '
              'correspondence of the displayed order against the real tag over objects/mappings/2-tuples/plain '
              'items, 8 key types, cmp/nocase/user function, asc/desc, sort_expr, reverse(_expr), batching',
         note='Trusted: Lean kernel; CPython list.sort stability/consistency on homogeneous keys; model validated by '
